@@ -4,7 +4,7 @@ CONSTANTS
   Limits = {3}
   MaxReq = 2
   MaxChg = 1
-  MaxStore = 2
+  MaxStore = 1
   KindSet = {"exact", "corrupt"}
   ROs = {FALSE, TRUE}
   ExtNames = {"a"}
